@@ -60,17 +60,19 @@ class SeqTheory:
         A.append(FA([s, t], ln(cat(s, t)) == ln(s) + ln(t), patterns=[cat(s, t)]))
         A.append(FA([s, t, i], at(cat(s, t), i) == z3.If(i < ln(s), at(s, i), at(t, i - ln(s))),
                     patterns=[at(cat(s, t), i)]))
+        import os
+        PART = not os.environ.get("PYVC_NOPART")
         # elements of cat seen from the parts (needed when a fact is stated on a part)
-        A.append(FA([s, t, i], z3.Implies(z3.And(0 <= i, i < ln(s)), at(cat(s, t), i) == at(s, i)),
+        if PART: A.append(FA([s, t, i], z3.Implies(z3.And(0 <= i, i < ln(s)), at(cat(s, t), i) == at(s, i)),
                     patterns=[z3.MultiPattern(cat(s, t), at(s, i))]))
-        A.append(FA([s, t, i], z3.Implies(z3.And(0 <= i, i < ln(t)), at(cat(s, t), i + ln(s)) == at(t, i)),
+        if PART: A.append(FA([s, t, i], z3.Implies(z3.And(0 <= i, i < ln(t)), at(cat(s, t), i + ln(s)) == at(t, i)),
                     patterns=[z3.MultiPattern(cat(s, t), at(t, i))]))
         ok = lambda: z3.And(0 <= a, a <= b, b <= ln(s))
         A.append(FA([s, a, b], z3.Implies(ok(), ln(sl(s, a, b)) == b - a), patterns=[sl(s, a, b)]))
         A.append(FA([s, a, b, i], z3.Implies(z3.And(ok(), 0 <= i, i < b - a), at(sl(s, a, b), i) == at(s, a + i)),
                     patterns=[at(sl(s, a, b), i)]))
         # an element of s seen through a slice that covers it
-        A.append(FA([s, a, b, i], z3.Implies(z3.And(ok(), a <= i, i < b), at(sl(s, a, b), i - a) == at(s, i)),
+        if PART: A.append(FA([s, a, b, i], z3.Implies(z3.And(ok(), a <= i, i < b), at(sl(s, a, b), i - a) == at(s, i)),
                     patterns=[z3.MultiPattern(sl(s, a, b), at(s, i))]))
         A.append(FA([s, t], eq(s, t) == z3.And(ln(s) == ln(t),
                                                FA([i], z3.Implies(z3.And(0 <= i, i < ln(s)), at(s, i) == at(t, i)),
@@ -169,6 +171,8 @@ upper_c = z3.Function("upper_c", I, I)
 seq_lower = z3.Function("seq_lower", ISq, ISq)
 seq_upper = z3.Function("seq_upper", ISq, ISq)
 find_ = z3.Function("find", ISq, ISq, I, I)        # s.find(sub, start)
+occ = z3.Function("occ", ISq, ISq, I, B)            # t occurs in s at offset o
+fits_bytes = z3.Function("fits_bytes", I, I, B)     # 0 <= v < 256**n
 
 
 def lib_axioms():
@@ -182,6 +186,8 @@ def lib_axioms():
     A.append(FA([s, t, n], z3.Implies(z3.And(ln(s) == n, ln(t) == n),
                                       le_bytes(bigxor(le_val(s), le_val(t)), n) == xorseq(s, t)),
                 patterns=[le_bytes(bigxor(le_val(s), le_val(t)), n)]))
+    A.append(FA([s, t, n], z3.Implies(z3.And(ln(s) == n, ln(t) == n), fits_bytes(bigxor(le_val(s), le_val(t)), n)),
+                patterns=[fits_bytes(bigxor(le_val(s), le_val(t)), n)]))
     A.append(FA([s, t], z3.Implies(ln(s) == ln(t), ln(xorseq(s, t)) == ln(s)), patterns=[xorseq(s, t)]))
     A.append(FA([s, t, i], z3.Implies(z3.And(ln(s) == ln(t), 0 <= i, i < ln(s)),
                                       at(xorseq(s, t), i) == bx(at(s, i), at(t, i))),
@@ -208,22 +214,33 @@ def lib_axioms():
                 patterns=[at(aes_enc(k, s, t), i)]))
     A.append(FA([k, s, t, i], z3.Implies(z3.And(0 <= i, i < ln(aes_dec(k, s, t))), _isb(at(aes_dec(k, s, t), i))),
                 patterns=[at(aes_dec(k, s, t), i)]))
+    # occ(s, t, o): t occurs in s at offset o (element-wise definition, no slices in triggers)
+    o = z3.Int("o_l")
+    A.append(FA([s, t, o], occ(s, t, o) == z3.And(0 <= o, o + ln(t) <= ln(s),
+                                                  FA([i], z3.Implies(z3.And(0 <= i, i < ln(t)), at(s, o + i) == at(t, i)),
+                                                     patterns=[at(t, i)])),
+                patterns=[occ(s, t, o)]))
     # bytes.find(sub, start): least occurrence >= start, -1 if none (sub non-empty, 0 <= start)
-    occ = lambda q, sub, o: z3.And(0 <= o, o + ln(sub) <= ln(q), IS.eq(IS.sl(q, o, o + ln(sub)), sub))
     r = find_(s, t, n)
-    A.append(FA([s, t, n], z3.Implies(z3.And(ln(t) >= 1, n >= 0),
-                                      z3.And(z3.Or(r == -1, z3.And(r >= n, r + ln(t) <= ln(s),
-                                                                  IS.sl(s, r, r + ln(t)) == t)))),
+    A.append(FA([s, t, n], z3.Implies(z3.And(ln(t) >= 1, n >= 0), z3.Or(r == -1, z3.And(r >= n, occ(s, t, r)))),
                 patterns=[find_(s, t, n)]))
-    A.append(FA([s, t, n, v], z3.Implies(z3.And(ln(t) >= 1, n >= 0, n <= v, v + ln(t) <= ln(s),
-                                                z3.Or(r == -1, v < r)),
-                                         z3.Not(IS.eq(IS.sl(s, v, v + ln(t)), t))),
-                patterns=[z3.MultiPattern(find_(s, t, n), IS.sl(s, v, v + ln(t)))]))
+    A.append(FA([s, t, n, v], z3.Implies(z3.And(ln(t) >= 1, n >= 0, n <= v, z3.Or(r == -1, v < r)),
+                                         z3.Not(occ(s, t, v))),
+                patterns=[z3.MultiPattern(find_(s, t, n), occ(s, t, v))]))
     return A
 
 
+def arith_axioms():
+    """Facts about div/mod with a symbolic positive divisor (theorems of integer arithmetic)."""
+    a, b = z3.Ints("a_m b_m")
+    return [
+        FA([a, b], z3.Implies(z3.And(0 <= a, a < b), a % b == a), patterns=[a % b]),
+        FA([a, b], z3.Implies(b > 0, z3.And(0 <= a % b, a % b < b)), patterns=[a % b]),
+    ]
+
+
 def all_axioms():
-    return IS.axioms + VS.axioms + bx_axioms() + lib_axioms()
+    return IS.axioms + VS.axioms + bx_axioms() + lib_axioms() + arith_axioms()
 
 
 def new_solver(timeout_ms):
